@@ -66,6 +66,10 @@ fn small_ws(rng: &mut Rng, imports: bool) -> WsSpec {
     o.colliding_imports = rng.chance(300);
     o.import_cycles = imports && rng.chance(350);
     o.file.in_class = false;
+    // a name defined twice in one file: redefinition, `name=` override next to the function, override in a test class -
+    // which earlier definition is alive is decided from what each definition binds
+    o.same_file_dups = rng.chance(300);
+    o.file.class_override_per_mille = 350;
     gen_ws(rng, &o)
 }
 
@@ -74,7 +78,7 @@ pub fn next_version(rng: &mut Rng, spec: &WsSpec, file: &str, current: &str, las
     let Some(pf) = spec.file(file) else { return current.to_string() };
     let is_test = pf.items.iter().any(|i| matches!(i, Item::Test(_)));
     let imports: Vec<Item> = pf.items.iter().filter(|i| matches!(i, Item::Star { .. } | Item::Import { .. } | Item::Plugins { .. })).cloned().collect();
-    let o = GenOpts { in_class: false, alias: rng.chance(200), ..GenOpts::default() };
+    let o = GenOpts { in_class: false, alias: rng.chance(200), dup_names: rng.chance(300), class_override_per_mille: 350, ..GenOpts::default() };
     let fdir = super::ws::dir_of(file);
     let (orphan, orphan_mod) = if spec.file(&super::ws::join_rel(&fdir, "orph/orphan_fixtures.py")).is_some() {
         (super::ws::join_rel(&fdir, "orph/orphan_fixtures.py"), "orph.orphan_fixtures")
